@@ -18,7 +18,7 @@ ASSUMPTIONS = ['stationary sensor: acc and mag are exact images of the filter\'s
                'oracle: every row finite and unit; error(H) <= tol; error <= tol over the last 10 % of the run; final error <= max(initial error, tol)',
                'accelerometer-only variants are judged on tilt only; AQUA\'s state is the conjugate attitude; filters without a q0 are started far away by making the first sample consistent with the initial attitude',
                'initial errors up to 175 degrees; exactly opposite is excluded as in the statement']
-REQUIRED_CLASSES = ['streaming', 'err0=0', 'err0<=30', 'err0>=150', 'full-attitude', 'tilt-only']
+REQUIRED_CLASSES = ['streaming', 'dropped-samples', 'err0=0', 'err0<=30', 'err0>=150', 'full-attitude', 'tilt-only']
 
 DIP = 60.0
 TRUTHS = [np.array([1.0, 0, 0, 0]), np.array([0.0, 1.0, 0, 0]), rq.axang2q([0, 1, 0], math.pi / 2), None, None, rq.qunit([0.35, 0.6, -0.6, 0.4])]
@@ -93,7 +93,7 @@ def _err_deg(r, q, qt, tilt_only, g):
     return math.degrees(rq.qangle(q, qt))
 
 
-def run_orbit(r, cfg, H, qt, axis, ang_deg, pattern):
+def run_orbit(r, cfg, H, qt, axis, ang_deg, pattern, fault=None):
     """-> (Q rows, initial state quaternion in the filter's convention)"""
     g, m = r.refs(DIP)
     if isinstance(cfg.get('magnetic_ref'), np.ndarray):        # reference given as a vector: the data are images of that direction
@@ -125,6 +125,12 @@ def run_orbit(r, cfg, H, qt, axis, ang_deg, pattern):
     else:
         Ri = rq.R(q_init_att)
         acc[0] = Ri.T @ g * 9.81; mag[0] = Ri.T @ m * 45.0
+    if fault == 'mag':          # a few dropped (all-zero) samples early in the record: the filter still has to converge afterwards
+        mag[5] = 0.0; mag[40:42] = 0.0
+    elif fault == 'gyr':
+        gyr[7:9] = 0.0; gyr[30] = 0.0
+    elif fault == 'acc':
+        acc[9] = 0.0
     np.random.seed(4)
     inst = r.batch(gyr, acc, mag, cfg, q0=q0)
     return r.output(inst), q_init_att
@@ -146,14 +152,25 @@ def job_orbits(ctx, key, ci, ti, k):
         grid += [(5, 4, 10 + ti % 3), (2, 2, 10 + (ti + 1) % 3), (6, 5, 4), (6, 4, ti % 4), (6, 5, 0)]
         if H > LONG:
             grid = [(2, 5, 4), (5, 2, 4), (5, 4, 10 + ti % 3), (6, 4, 4)]
-    for ax, an, p in grid:
-        kk = f'filter={key} cfg#{ci} truth#{ti}k{k} axis#{ax} err0={ERR_ANG[an]:g} noise#{p}'
+    grid = [g_ + (None,) for g_ in grid]
+    if 60 <= H <= 3000 or (ctx.thorough and H >= 60):
+        grid += [(5, 4, 4, 'mag'), (5, 4, 4, 'gyr'), (5, 4, 4, 'acc'), (2, 2, 0, 'gyr')] if r.has_mag else [(5, 4, 4, 'gyr'), (5, 4, 4, 'acc')]
+    for ax, an, p, fault in grid:
+        kk = f'filter={key} cfg#{ci} truth#{ti}k{k} axis#{ax} err0={ERR_ANG[an]:g} noise#{p}' + ('' if fault is None else f' dropped-samples={fault}')
         ctx.evals += 1
         try:
-            Q, q_init = run_orbit(r, cfg, H, qt, ERR_AXES[ax], ERR_ANG[an], pats[p])
+            Q, q_init = run_orbit(r, cfg, H, qt, ERR_AXES[ax], ERR_ANG[an], pats[p], fault=fault)
+        except ValueError as ex:
+            if fault is not None:
+                ctx.outcome(('record-with-dropped-samples-refused', key, fault))      # a refusal of such a record is C13's business
+                continue
+            ctx.fail(f'{key}: orbit raises', kk, f'{type(ex).__name__}: {ex}'[:160], 'an orbit')
+            continue
         except Exception as ex:
             ctx.fail(f'{key}: orbit raises', kk, f'{type(ex).__name__}: {ex}'[:160], 'an orbit')
             continue
+        if fault is not None:
+            ctx.cls('dropped-samples')
         ctx.transitions += H
         ctx.states += H
         ctx.traces += 1
